@@ -897,7 +897,7 @@ def has_other_inst(i):
 
 
 def coq_cfg(cfg):
-    return "(mkcfg %s %s %s %s)" % tuple(common.cbool(cfg[k]) for k in ("fix_db_id", "fix_loggaussian", "fix_chain", "fix_falsy"))
+    return "(mkcfg %s %s %s %s %s)" % tuple(common.cbool(cfg[k]) for k in ("fix_db_id", "fix_loggaussian", "fix_chain", "fix_falsy", "fix_instance"))
 
 
 def coq_case(c, r, cfg):
@@ -1067,7 +1067,7 @@ def run(ctx):
     # which of the modelled repairs does this tree contain (the theorems hold for every configuration)
     pr = common.run_impl("c08_impl", {"cases": [{"kind": "probe"}]}, timeout=300)
     cfg = (pr.get("results") or [{}])[0].get("ok")
-    ctx.obligation("translator:cfg-probe", "translator", isinstance(cfg, dict) and len(cfg) == 5, json.dumps(pr)[-300:])
+    ctx.obligation("translator:cfg-probe", "translator", isinstance(cfg, dict) and len(cfg) == 6, json.dumps(pr)[-300:])
     if not isinstance(cfg, dict):
         return
     ctx.notes["code_configuration"] = cfg
@@ -1075,7 +1075,8 @@ def run(ctx):
     # a repair recorded as fixed must still be present: the model follows the probed code, so a reverted
     # repair would not disagree with it -- this obligation (and the oracle on the corpus findings) is what reports it
     FLAG = {"db-prior-id-read-through-message": "fix_db_id", "dict-loggaussian-no-mean-sigma": "fix_loggaussian",
-            "db-chained-assertion": "fix_chain", "dict-branch-drops-falsy-values": "fix_falsy"}
+            "db-chained-assertion": "fix_chain", "dict-branch-drops-falsy-values": "fix_falsy",
+            "dict-zero-prior-model-as-instance": "fix_instance"}
     for k in common.load_known("C08"):
         if k.get("status") == "fixed" and k.get("signature") in FLAG:
             ok = bool(cfg.get(FLAG[k["signature"]]))
@@ -1095,7 +1096,8 @@ def run(ctx):
     REPAIRED = {"finding-db-message-id.json": "db-prior-id-read-through-message", "finding-db-chained-assertion.json": "db-chained-assertion",
                 "finding-dict-loggaussian.json": "dict-loggaussian-no-mean-sigma", "finding-dict-falsy-constant.json": "dict-branch-drops-falsy-values",
                 "finding-dict-array.json": "dict-array-not-registered", "finding-array-db-int-shape.json": "array-db-int-shape",
-                "finding-db-int-as-float.json": "db-int-as-float", "finding-db-collection-item-number.json": "db-collection-item-number"}
+                "finding-db-int-as-float.json": "db-int-as-float", "finding-db-collection-item-number.json": "db-collection-item-number",
+                "finding-dict-zero-prior-instance.json": "dict-zero-prior-model-as-instance", "finding-modified-prior.json": "modified-prior-not-storable"}
     for i, (c, r) in enumerate(zip(cases, results)):
         before = len(ctx.violations) + sum(h["count"] for h in ctx.known_hits.values())
         try:
